@@ -302,8 +302,11 @@ impl Context {
             let mut parent = task.parent();
             while let Some(p) = parent {
                 if p.is_kind(NodeKind::Step) || p.is_kind(NodeKind::Act) {
-                    p.set_state(TaskState::Backed);
-                    self.emit_task(&p)?;
+                    // a parent that is already closed keeps its state
+                    if !p.state().is_completed() {
+                        p.set_state(TaskState::Backed);
+                        self.emit_task(&p)?;
+                    }
                     break;
                 }
                 parent = p.parent();
@@ -364,6 +367,11 @@ impl Context {
         // abort all running task
         let mut parent = task.parent();
         while let Some(task) = parent {
+            // a parent that is already closed keeps its state
+            if task.state().is_completed() {
+                parent = task.parent();
+                continue;
+            }
             task.set_state(TaskState::Aborted);
             ctx.set_task(&task);
             ctx.emit_task(&ctx.task())?;
@@ -423,6 +431,10 @@ impl Context {
             if task.state().is_error() {
                 if let Some(err) = task.err() {
                     if let Some(parent) = task.parent() {
+                        // a parent that is already closed keeps its state
+                        if parent.state().is_completed() {
+                            return Ok(());
+                        }
                         parent.set_err(&err);
                         return parent.error(self);
                     }
